@@ -145,11 +145,13 @@ Section Init.
     - intros t Ht. cbn [ph hl aux_init]. split; [reflexivity|]. apply nth_overflow. unfold helds. rewrite map_length. exact Ht.
   Qed.
 
-  Lemma init_ok : Conc.cfg_ok (view) (Inv N (valid_init k ths) (own_init ths)) (init_cfg fuel k ths).
+  Lemma init_ok : Conc.cfg_ok (view) (Inv N (valid_init k ths) (own_init ths) N) (init_cfg fuel k ths).
   Proof.
     exists (aux_init k ths). split.
     - split; [apply InvS_init|]. cbn [Conc.trace init_cfg]. split; [reflexivity|split].
-      + intros n t. cbn [own hl aux_init]. apply own_init_spec. apply Hwf.
+      + intros n t. cbn [own hl aux_init]. rewrite (own_init_spec ths n t (proj1 Hwf)). split; [|tauto].
+        intros Hin. split; [|exact Hin]. destruct (Nat.lt_ge_cases t N) as [Hl|Hl]; [exact Hl|].
+        rewrite nth_overflow in Hin; [contradiction|]. unfold helds. rewrite map_length. exact Hl.
       + intros t. reflexivity.
     - intros t p Hp. cbn [init_cfg Conc.threads] in Hp. rewrite nth_error_map in Hp.
       destruct (nth_error ths t) as [[os H]|] eqn:E; [|discriminate]. injection Hp as <-.
@@ -158,7 +160,7 @@ Section Init.
       { unfold view. cbn [hl ph aux_init]. f_equal. unfold helds.
         rewrite (nth_indep _ [] (snd (os, H))) by (rewrite map_length; exact Ht).
         rewrite map_nth. rewrite (nth_error_nth ths t (os, H) E). reflexivity. }
-      rewrite Hv. cbn [fst snd]. apply (safe_thread N HN (valid_init k ths) valid_zero). exact Ht.
+      rewrite Hv. cbn [fst snd]. apply (safe_thread N HN (valid_init k ths) valid_zero (own_init ths) N (le_n N)). exact Ht.
   Qed.
 End Init.
 
@@ -225,7 +227,7 @@ Section Theorems.
   Let N := List.length ths.
 
   Lemma reach_Inv c : Conc.reach (init_cfg fuel k ths) c ->
-    exists a, Inv N (valid_init k ths) (own_init ths) (Conc.shared c) a (Conc.trace c).
+    exists a, Inv N (valid_init k ths) (own_init ths) N (Conc.shared c) a (Conc.trace c).
   Proof. intros Hr. exact (Conc.reach_Inv (init_ok fuel k ths Hwf HN) Hr). Qed.
 
   (** a node returned by get() is not returned by another get() until it has been put back: the
@@ -234,7 +236,7 @@ Section Theorems.
     exists own, mon_run (own_init ths) (Conc.trace c) = Some own.
   Proof. intros Hr. destruct (reach_Inv c Hr) as (a & _ & T1 & _). eauto. Qed.
 
-  Lemma nonidle_open a tr t : InvT (own_init ths) a tr -> ph a t <> Idle -> opens t tr <> 0.
+  Lemma nonidle_open a tr t : InvT (own_init ths) N a tr -> ph a t <> Idle -> opens t tr <> 0.
   Proof.
     intros (_ & _ & T3) Hp. rewrite T3. destruct (ph a t); cbn; try lia. congruence.
   Qed.
@@ -255,12 +257,14 @@ Section Theorems.
     exists (own a), (lst a). split; [exact T1|]. split; [apply (S_chain HS)|]. split; [apply (S_lnd HS)|]. split.
     - intros n Hin. apply (S_lin HS) in Hin. split.
       + destruct (valid_init k ths n) eqn:E; [reflexivity|]. apply (S_valid HS) in E. congruence.
-      + destruct (own a n) as [t|] eqn:E; [|reflexivity]. apply T2 in E. apply (S_held HS) in E. congruence.
+      + destruct (own a n) as [t|] eqn:E; [|reflexivity]. apply T2 in E. destruct E as [_ E]. apply (S_held HS) in E. congruence.
     - intros n Hv Ho. pose proof (S_st HS n) as Hst. unfold st_ok in Hst.
       destruct (st a n) as [|t|t| | |t|t] eqn:Es.
       + apply (S_valid HS) in Es. congruence.
       + right. exists t. destruct Hst as [Hst|[Hst|Hst]].
-        * apply T2 in Hst. congruence.
+        * assert (Hlt : (t < N)%nat).
+          { destruct (Nat.lt_ge_cases t N) as [Hl|Hl]; [exact Hl|]. rewrite (proj2 (S_out HS t Hl)) in Hst. contradiction. }
+          assert (E : own a n = Some t) by (apply T2; split; assumption). congruence.
         * eapply nonidle_open; eauto. congruence.
         * eapply nonidle_open; eauto. congruence.
       + right. exists t. eapply nonidle_open; eauto. congruence.
@@ -294,11 +298,14 @@ Section Theorems.
     - intros n. split.
       + intros Hin. apply (S_lin HS) in Hin. split.
         * destruct (valid_init k ths n) eqn:E; [reflexivity|]. apply (S_valid HS) in E. congruence.
-        * destruct (own a n) as [t|] eqn:E; [|reflexivity]. apply T2 in E. apply (S_held HS) in E. congruence.
+        * destruct (own a n) as [t|] eqn:E; [|reflexivity]. apply T2 in E. destruct E as [_ E]. apply (S_held HS) in E. congruence.
       + intros [Hv Ho]. apply (S_lin HS). pose proof (S_st HS n) as Hst. unfold st_ok in Hst.
         destruct (st a n) as [|t|t| | |t|t] eqn:Es; try reflexivity; exfalso.
         * apply (S_valid HS) in Es. congruence.
-        * rewrite Hidle in Hst. destruct Hst as [Hst|[Hst|Hst]]; try discriminate. apply T2 in Hst. congruence.
+        * rewrite Hidle in Hst. destruct Hst as [Hst|[Hst|Hst]]; try discriminate.
+          assert (Hlt : (t < N)%nat).
+          { destruct (Nat.lt_ge_cases t N) as [Hl|Hl]; [exact Hl|]. rewrite (proj2 (S_out HS t Hl)) in Hst. contradiction. }
+          assert (E : own a n = Some t) by (apply T2; split; assumption). congruence.
         * rewrite Hidle in Hst. discriminate.
         * rewrite Hcnt in Hst. lia.
         * rewrite Hidle in Hst. destruct Hst as [_ [Hst|[h Hst]]]; discriminate.
